@@ -16,7 +16,7 @@ from vmon.util import derive_rng, shash
 
 LEVEL = "exploration"
 MANIFEST = {
-    "text": "For seeded random programs (same space as C01) every optimizer stage is run under a step monitor (calls of simplify_once / lower_once / rewrite, rule firings) with a budget of 1000 + 400 x plan nodes (observed maximum is recorded; budget is >10x it); RuntimeError('does not converge') or a budget overrun is a violation. The optimized plan's name and tree are compared between repetitions, after gc.collect(), and after rebuilding the whole program from fresh source objects; optimize(optimize(q)) and optimize_until(optimize(q), S) must not raise and must compute the same result.",
+    "text": "For seeded random programs (same space as C01) every optimizer stage is run under a step monitor (calls of simplify_once / lower_once / rewrite, rule firings) with a budget of 1000 + 400 x plan nodes (observed maximum is recorded; budget is >10x it); RuntimeError('does not converge') or a budget overrun is a violation. The optimized plan's name and tree are compared between repetitions, after gc.collect(), and after rebuilding the whole program from fresh source objects; optimize(optimize(q)) and optimize_until(optimize(q), S) must not raise and must compute the same result. ~230 targeted collections (plan-audit targets, nested / re-optimized shapes, aggregation views, 40 filter-over-merge cells) run under the step monitor; the first optimization of every stage is compared with a second pass over the same user-held objects.",
     "note": "Bounded-progress restatement of termination; a per-case wall-clock timeout is reported as inconclusive. Cross-process / hash-seed determinism of names is decided by C08.",
     "technique": "runtime monitoring: step-counter monitor with budget on the real rewrite drivers + name/plan equality oracle over repeated and nested optimize() calls",
     "design_ref": "DESIGN.md section 4, C19",
